@@ -307,10 +307,15 @@ func QualifierParser(prefix string) pars.Parser {
 				RegisterLiteralQualifier(name)
 			case toggleParser(state, result) == nil:
 				RegisterToggleQualifier(name)
+				result.SetToken(nil)
 			}
 		default:
 			if err := valueParsers[qtype](state, result); err != nil {
 				return err
+			}
+			// A toggle qualifier has no value: the token is the line end.
+			if qtype == ToggleQualifier {
+				result.SetToken(nil)
 			}
 		}
 
